@@ -95,7 +95,11 @@ pub fn expected_of(fam: &Fam, m: &Msg) -> Option<Msg> {
         if fam.raw_dec {
             Some(Sc::Bytes(s.wire()))
         } else {
-            one_shot(&s.wire()).map(Sc::Recon)
+            let r = one_shot(&s.wire()).map(Sc::Recon);
+            if r.is_none() && std::env::var("C10_DEBUG_SKIP").is_ok() {
+                eprintln!("not one-shot parseable: {:?} = {:?}", s, String::from_utf8_lossy(&s.wire()));
+            }
+            r
         }
     })
 }
@@ -186,6 +190,7 @@ pub fn feed(dec: &mut dyn Dec, stream: &[u8], chunks: &mut dyn FnMut(usize) -> u
     let mut run = Run { msgs: vec![], err: None, contract: None, leftover: 0, decode_calls: 0, reads: vec![] };
     let mut buf = BytesMut::new();
     let mut fed = 0usize;
+    let mut idle = 0u32;
     while fed < stream.len() {
         let n = chunks(stream.len() - fed).clamp(1, stream.len() - fed);
         buf.extend_from_slice(&stream[fed..fed + n]);
@@ -196,13 +201,26 @@ pub fn feed(dec: &mut dyn Dec, stream: &[u8], chunks: &mut dyn FnMut(usize) -> u
             run.decode_calls += 1;
             match dec.decode(&mut buf) {
                 Ok(Some(m)) => {
-                    if buf.len() >= before {
-                        run.contract = Some((
-                            "no-progress",
-                            format!("decode returned a message ({:?}) without consuming input (buffer {} -> {} bytes)", m, before, buf.len()),
-                        ));
+                    if buf.len() > before {
+                        run.contract = Some(("buffer-grew", format!("decode grew the buffer from {} to {} bytes", before, buf.len())));
                         run.leftover = buf.len();
                         return run;
+                    }
+                    // A message out of bytes consumed by earlier calls is fine once; a decoder
+                    // that keeps producing messages without consuming anything never terminates
+                    // (FramedRead calls decode until it returns None).
+                    if buf.len() == before {
+                        idle += 1;
+                        if idle >= 2 {
+                            run.contract = Some((
+                                "no-progress",
+                                format!("decode returned messages (last {:?}) on consecutive calls without consuming input (buffer {} bytes)", m, before),
+                            ));
+                            run.leftover = buf.len();
+                            return run;
+                        }
+                    } else {
+                        idle = 0;
                     }
                     run.msgs.push((m, fed - buf.len()));
                 }
@@ -212,6 +230,7 @@ pub fn feed(dec: &mut dyn Dec, stream: &[u8], chunks: &mut dyn FnMut(usize) -> u
                         run.leftover = buf.len();
                         return run;
                     }
+                    idle = 0;
                     break;
                 }
                 Err(e) => {
@@ -228,11 +247,16 @@ pub fn feed(dec: &mut dyn Dec, stream: &[u8], chunks: &mut dyn FnMut(usize) -> u
         match dec.decode_eof(&mut buf) {
             Ok(Some(m)) => {
                 if buf.len() >= before {
-                    run.contract = Some((
-                        "no-progress",
-                        format!("decode_eof returned a message ({:?}) without consuming input (buffer {} bytes)", m, before),
-                    ));
-                    break;
+                    idle += 1;
+                    if idle >= 2 {
+                        run.contract = Some((
+                            "no-progress",
+                            format!("decode_eof returned messages (last {:?}) on consecutive calls without consuming input (buffer {} bytes)", m, before),
+                        ));
+                        break;
+                    }
+                } else {
+                    idle = 0;
                 }
                 run.msgs.push((m, fed - buf.len()));
             }
@@ -270,41 +294,54 @@ fn verify_prefix(fam: &Fam, st: &Stream, upto: usize, complete: bool, run: &Run)
         // trigger of a defect of the Recon stream parser underneath every typed decoder (see
         // NOTES.md, finding 1); it gets its own signature so that it does not hide anything else.
         let split_token = st.bare_tokens[j].iter().any(|(s, e)| run.reads.iter().any(|r| s < r && r < e));
-        let kind = format!("{}{}", st.expected[j].kind(), if split_token { "/split-bare-token" } else { "" });
+        let kind = st.expected[j].kind();
+        // One signature per (family, message kind) for "frame j decodes to what was encoded and
+        // consumes exactly its own bytes"; how it failed (wrong message / error / nothing /
+        // consumed too much or too little) is in the detail, because one defect shows as several
+        // of these depending on what follows in the stream.
+        let sig = |law: &str| {
+            if split_token {
+                format!("split-bare-token:{}", name)
+            } else if matches!(law, "wrong-msg" | "err" | "missing" | "over-consume" | "under-consume") {
+                format!("roundtrip:{}@{}", name, kind)
+            } else {
+                format!("{}:{}@{}", law, name, kind)
+            }
+        };
         match run.msgs.get(j) {
             Some((m, pos)) => {
                 if m != &st.expected[j] {
                     return Some((
-                        format!("wrong-msg:{}@{}", name, kind),
-                        format!("message {} decoded as {} but {} was encoded", j, short(m), short(&st.expected[j])),
+                        sig("wrong-msg"),
+                        format!("wrong message: message {} decoded as {} but {} was encoded", j, short(m), short(&st.expected[j])),
                     ));
                 }
                 if *pos > st.ends[j] {
                     return Some((
-                        format!("over-consume:{}@{}", name, kind),
-                        format!("after message {} the decoder had consumed {} bytes but the frame ends at {}", j, pos, st.ends[j]),
+                        sig("over-consume"),
+                        format!("over-consumption: after message {} the decoder had consumed {} bytes but the frame ends at {}", j, pos, st.ends[j]),
                     ));
                 }
                 if *pos < st.ends[j] {
                     return Some((
-                        format!("under-consume:{}@{}", name, kind),
-                        format!("message {} was returned after consuming only {} bytes but its frame ends at {}", j, pos, st.ends[j]),
+                        sig("under-consume"),
+                        format!("under-consumption: message {} was returned after consuming only {} bytes but its frame ends at {}", j, pos, st.ends[j]),
                     ));
                 }
             }
             None => {
                 if let Some((law, d)) = &run.contract {
-                    return Some((format!("{}:{}@{}", law, name, kind), d.clone()));
+                    return Some((sig(law), d.clone()));
                 }
                 return Some(match &run.err {
                     Some(e) => (
-                        format!("err:{}@{}", name, kind),
-                        format!("decoder failed with {} instead of producing message {} = {}", e, j, short(&st.expected[j])),
+                        sig("err"),
+                        format!("error: decoder failed with {} instead of producing message {} = {}", e, j, short(&st.expected[j])),
                     ),
                     None => (
-                        format!("missing:{}@{}", name, kind),
+                        sig("missing"),
                         format!(
-                            "end of input reached ({} bytes left in the buffer) without message {} = {}",
+                            "missing: end of input reached ({} bytes left in the buffer) without message {} = {}",
                             run.leftover,
                             j,
                             short(&st.expected[j])
